@@ -353,14 +353,15 @@ async fn dial_happy_eyeballs(
 }
 
 /// Removes the next address to attempt, preferring `*next_is_v6`'s family and
-/// flipping it so families interleave; falls back to whatever is available.
+/// setting it to the other family of the one taken so families interleave; falls
+/// back to whatever is available.
 fn pop_family(addrs: &mut VecDeque<IpAddr>, next_is_v6: &mut bool) -> Option<IpAddr> {
     let idx = addrs
         .iter()
         .position(|ip| ip.is_ipv6() == *next_is_v6)
         .unwrap_or(0);
     let addr = addrs.remove(idx)?;
-    *next_is_v6 = !*next_is_v6;
+    *next_is_v6 = !addr.is_ipv6();
     Some(addr)
 }
 
